@@ -15,6 +15,10 @@ import (
 
 var ErrServerStopped = errors.New("server already stopped")
 
+// maxBatchSizeHint bounds how many points are preallocated for a batch
+// whose size is announced by the UDF process.
+const maxBatchSizeHint = 1 << 16
+
 type Diagnostic interface {
 	Error(msg string, err error, ctx ...keyvalue.T)
 
@@ -697,8 +701,16 @@ func (s *Server) handleResponse(response *agent.Response) error {
 		s.diag.Error("received error message", errors.New(msg.Error.Error))
 		return errors.New(msg.Error.Error)
 	case *agent.Response_Begin:
+		// Size is chosen by the UDF process: never trust it as an allocation size.
+		size := msg.Begin.Size
+		if size < 0 {
+			return fmt.Errorf("received begin batch message with invalid size %d", size)
+		}
+		if size > maxBatchSizeHint {
+			size = maxBatchSizeHint
+		}
 		s.begin = msg.Begin
-		s.points = make([]edge.BatchPointMessage, 0, msg.Begin.Size)
+		s.points = make([]edge.BatchPointMessage, 0, size)
 	case *agent.Response_Point:
 		if s.points != nil {
 			bp := edge.NewBatchPointMessage(
